@@ -96,6 +96,30 @@ def label_matcher(ctx, case):
         util.color_output = saved_color
 
 
+def list_by_label(ctx, case):
+    """`list B:` / `list B: 1a` return exactly the recorded messages of that connection / on that object, whatever was selected while they arrived"""
+    from harness import ctl
+    assign, sel_while = case
+    w = ctl.make_world(ctx, 2)
+    try:
+        if sel_while is not None:
+            w.ctl.process_command('connection ' + w.conns[sel_while].name())
+        for k, ci in enumerate(assign):
+            ctl.add_message(w, ci)     # (messages on objects that were never created carry no connection: ill-formed, outside)
+        w.ctl.process_command('connection all')
+        for ci in (0, 1):
+            name = w.conns[ci].name()
+            k0 = len(w.out.items)
+            w.ctl.process_command('list ' + name + ':')
+            ctx.check('`list %s:` shows exactly the messages of connection %s' % (name, name), ctl.msg_lines(w.out.items[k0:]) == [m.tag for m, c in w.msgs if c == ci])
+            k0 = len(w.out.items)
+            w.ctl.process_command('list ' + name + ': 1a')
+            ctx.check('`list %s: 1a` shows exactly the messages on that connection\'s display object' % name,
+                      ctl.msg_lines(w.out.items[k0:]) == [m.tag for m, c in w.msgs if c == ci and m.obj.resolved() and m.obj.id == 1])
+    finally:
+        ctl.restore_show()
+
+
 def twin(ctx, case):
     label_matcher(ctx, case)
     ctx.check('reachability twin (must be violated)', False)
@@ -129,5 +153,7 @@ def obligations(tier):
                   objtable.FUNCS, 'ids symbolic incl. the server-range boundary; the C02 step restricted to messages that create objects', objtable.step,
                   cases=[('C02', 'other', ('new',), 2, 2), ('C02', 'other', ('new', 'new'), 1, 2), ('C02', 'other', ('new', 'obj'), 1, 2), ('C02', 'delete_id', ('int', 'new'), 1, 2)], stubs=objtable.STUBS))
     obs.append(Ob('long-reuse-labels', 'symx', 'an id handed out up to 703 times: labels a..z, aa.. without repeats', objtable.FUNCS, '27..703 creations', objtable.long_reuse, cases=[(28, True), (703, False)]))
+    obs.append(Ob('list-by-label', 'symx', 'listing by displayed connection name / object label over recorded histories (also recorded while another connection was selected)', FUNCS_M + ['frontends.tui.controller:Controller.list_command'],
+                  '4 histories x selection none/A/B while recording', list_by_label, cases=[(a, s) for a in [(0, 1), (0, 1, 1, 0), (1, 1, 0, 0, 1, 0)] for s in (None, 0, 1)]))
     obs.append(Ob('label-as-matcher-reachable', 'symx', 'reachability twin', FUNCS_M, '', twin, cases=[('conn+obj', 1, 7, 0)], expect_cex=True))
     return obs
